@@ -710,6 +710,19 @@ def rule_m(model, rep):
                     codec = ast.unparse(c.args[0]) if c.args else "'utf-8'"
                     if not guarded and "latin" not in codec.lower() and "iso-8859" not in codec.lower() and not any(k.arg == "errors" for k in c.keywords):
                         bad.append(ast.unparse(c))
+                # the strict text helpers decode bytes and raise for what the codec does not cover; only to_unicode_for_identify() is total
+                if isinstance(c, ast.Call) and ast.unparse(c.func).split(".")[-1] in ("to_unicode", "to_native_str") and c.args and isinstance(c.args[0], ast.Name) and c.args[0].id in names:
+                    codec = ast.unparse(c.args[1]) if len(c.args) > 1 else next((ast.unparse(k.value) for k in c.keywords if k.arg == "encoding"), "'utf-8'")
+                    guarded = False
+                    cur = c
+                    while cur is not None and cur is not fn:
+                        par = unit.parent(cur)
+                        if isinstance(par, ast.Try) and any(cur is x or any(cur is y for y in ast.walk(x)) for x in par.body) and \
+                                any(h.type is None or any(k in ast.unparse(h.type) for k in CATCH) for h in par.handlers):
+                            guarded = True
+                        cur = par
+                    if not guarded and "latin" not in codec.lower() and "iso-8859" not in codec.lower():
+                        bad.append(ast.unparse(c))
                 # module helpers that receive the string
                 if isinstance(c, ast.Call) and isinstance(c.func, ast.Name) and c.args and isinstance(c.args[0], ast.Name) and c.args[0].id in names and depth < 2:
                     callee = unit.funcs.get(c.func.id)
